@@ -116,11 +116,10 @@ class ClusteringFlowProposal(FlowProposal):
             filename=os.path.join(output, "x_comparison.png"),
         )
 
-        if self.parameters_to_rescale:
-            plot_1d_comparison(
-                self.training_data_prime,
-                x_prime_gen,
-                parameters=self.prime_parameters,
-                labels=["live points", "generated"],
-                filename=os.path.join(output, "x_prime_comparison.png"),
-            )
+        plot_1d_comparison(
+            self.training_data_prime,
+            x_prime_gen,
+            parameters=self.prime_parameters,
+            labels=["live points", "generated"],
+            filename=os.path.join(output, "x_prime_comparison.png"),
+        )
